@@ -94,6 +94,9 @@ var supported = map[[2]string]bool{
 }
 
 func exec(h *rt.H, op string) string {
+	if out, ok := execDyn(h, op); ok {
+		return out
+	}
 	w := strings.Fields(op)
 	switch w[0] {
 	case "felix": // felix <setting> -> ipip noencap canonical-value
@@ -252,7 +255,7 @@ func main() {
 	h := rt.New()
 	defer h.Close()
 	h.Rule = "first the WHOLE finite table (every felix setting in {absent, 4 values, lower/upper case variants, unknown} x every bgp setting in {no BGPConfiguration, absent, 4 values, case variants, unknown} x 4x4 pool modes), then random cases of 5 ops (incl. fenv: the real EncapsulationCalculator on pools of each class) with random settings (case variants, near misses, 'none', empty, random ASCII); " +
-		"distinct = distinct op line; non-trivial = pair/pool op"
+		"then histories: dnew (Felix start with 2-4 pools of classes i/v/n, mostly supported pairings) + 2-7 dset (a pool changes class; mostly to a class another pool keeps, so Felix does not restart) through the REAL ipip/vxlan/no-encap managers with a recording route table; distinct = distinct op line; non-trivial = pair/pool/dset op"
 	run := func(ops []string, tag string) {
 		h.Case(tag)
 		for _, op := range ops {
@@ -260,7 +263,7 @@ func main() {
 			h.Op(op, out)
 			w := strings.Fields(op)
 			h.Count("op:" + w[0])
-			if w[0] == "pair" || w[0] == "pool" {
+			if w[0] == "pair" || w[0] == "pool" || w[0] == "dset" {
 				h.Nontrivial(op)
 			}
 		}
@@ -305,6 +308,21 @@ func main() {
 			}
 			run(ops, "table-pair")
 		}
+	}
+	// histories of pool class changes through the real managers: a fixed scenario table, then random ones
+	for _, pr := range [][2]string{{"-", "-"}, {enc(v3.Enabled), enc(v3.Disabled)}, {enc(v3.Disabled), enc(v3.Enabled)}, {enc(v3.EnabledNoEncapOnly), enc(v3.EnabledIPIPOnly)}} {
+		for _, sc := range [][]string{
+			{"iin", "dset 0 n", "dset 1 n", "dset 0 i"},
+			{"nni", "dset 0 i", "dset 0 n", "dset 1 i"},
+			{"vvin", "dset 0 i", "dset 0 n", "dset 1 n", "dset 2 v"},
+			{"ivn", "dset 0 v", "dset 0 i", "dset 2 i", "dset 1 n"},
+		} {
+			ops := []string{fmt.Sprintf("dnew %s %s %s", pr[0], pr[1], sc[0])}
+			run(append(ops, sc[1:]...), "table-dyn")
+		}
+	}
+	for i := 0; i < h.N; i++ {
+		run(genDyn(h), "gen-dyn")
 	}
 	for i := 0; i < h.N; i++ {
 		f, bb := randSetting(h), randSetting(h)
